@@ -13,7 +13,10 @@ PROPERTIES = {
             "the point-set x region sampler (candidates = exactly the points of the set in the other region, one uniform choice); "
             "Intersection/Difference/UnionRegion.genericSampler (member of every operand / of A and not B / of the chosen operand of maximal "
             "dimension weighted by size, accepted iff u >= 1 - 1/k with k counted over ALL operands); every circumcircle "
-            "(Circular, Sector, Rectangular, Mesh) encloses its region; GridRegion.gridToPoint/pointToGrid (affine map, nearest index, round trip)"
+            "(Circular, Sector, Rectangular, Mesh) encloses its region; GridRegion.gridToPoint/pointToGrid (affine map, nearest index, round trip); "
+            "polygon sampling: triangulatePolygon (+ triangulatePolygon_mapbox) returns exactly the trusted earcut triangulation of the polygon handed over ring by ring "
+            "(so the triangles lie inside it and tile it), PolygonalRegion._samplingData lists all triangles of all polygons with their bounds and the prefix sums of their areas, "
+            "PolygonalRegion.uniformPointInner draws the triangle with random.choices over those weights and returns an accepted candidate inside the chosen triangle at height z"
         ),
         note="trigonometry by axioms A2 (Pythagoras, quarter-turn shift); polygons of the planar primitives are stubs (membership is judged on the exact disc / sector / rectangle)",
         assumptions=[
@@ -23,10 +26,15 @@ PROPERTIES = {
         ],
         not_reached=[
             "uniformity of the continuous samplers (change of variables for triangular radius x uniform angle, triangle rejection in PolygonalRegion.uniformPointInner): statistical, not deductive",
-            "PolygonalRegion.uniformPointInner/_samplingData (triangulation + rejection loop: almost-sure termination only)",
+            "termination of the rejection loop of PolygonalRegion.uniformPointInner (almost sure only; an arbitrary iteration is verified)",
             "MeshVolumeRegion/MeshSurfaceRegion/VoxelRegion/PathRegion/PolylineRegion.uniformPointInner (trimesh.sample / numpy internals)",
             "GridRegion.containsPoint over the numpy grid (only the index maps are verified)",
         ],
-        bounded=["point-set x region sampler: 2 points", "generic samplers: 2 (intersection) / 2-3 (union) operands"],
+        bounded=[
+            "point-set x region sampler: 2 points",
+            "generic samplers: 2 (intersection) / 2-3 (union) operands",
+            "triangulatePolygon: rings of 3..5 vertices, 0..1 hole; _samplingData: 1..2 polygons; uniformPointInner: 1..3 triangles",
+            "stand-in polygon_catalogue (never counted as proved): real triangulation + sampling on triangles, convex/concave quadrilaterals in every rotation and winding, larger polygons, polygons with holes; exact shapely checks",
+        ],
     )
 }
